@@ -13,6 +13,18 @@ from .repo import AnalysisError
 from .vec import (MASKED, NONE_EL, OOB, Backing, El, Masked, Sc, Vec, Vec2, m_and, m_conc, m_formula, m_ite, m_or,
                   norm_index)
 
+def pure_str_method(obj, name):
+    """any method of str / bytes is a pure function of concrete values: evaluated for real"""
+    def call(it, a, k, n):
+        if not all(isinstance(x, (str, bytes, int, type(None), tuple, list)) for x in list(a) + list(k.values())):
+            raise AnalysisError(f'{type(obj).__name__}.{name} with non-constant arguments', n)
+        try:
+            return getattr(obj, name)(*a, **k)
+        except (ValueError, TypeError, UnicodeError, LookupError) as e:
+            raise AbsRaise(ExcVal(type(e).__name__ if type(e).__name__ in ('ValueError', 'TypeError', 'KeyError', 'IndexError', 'LookupError', 'UnicodeDecodeError') else 'ValueError', (str(e),)), n)
+    return call
+
+
 PY_METHODS = {
     list: {'append', 'extend', 'pop', 'insert', 'remove', 'index', 'count', 'sort', 'reverse', 'copy', 'clear'},
     dict: {'get', 'items', 'keys', 'values', 'update', 'pop', 'setdefault', 'copy', 'clear'},
@@ -156,7 +168,17 @@ def getattr_lib(M, interp, obj, name, node):
             # numpy float scalars produced by python arithmetic on numpy scalars
             return ModelMethod(Sc(X.num(obj)), name)
         tn = 'NoneType' if obj is None else type(obj).__name__
+        real_type = float if isinstance(obj, Fr) else type(obj)
+        if hasattr(real_type, name):
+            # the real type has it: either evaluate it (pure string methods) or admit the model lacks it - never a made-up AttributeError
+            if isinstance(obj, str):
+                return PyCallable(pure_str_method(obj, name), f'str.{name}')
+            raise AnalysisError(f'{tn}.{name} is not modelled', node, where=_where(interp, node))
         raise AbsRaise(ExcVal('AttributeError', (f"'{tn}' object has no attribute '{name}'",)), node)
+    if isinstance(obj, bytes):
+        if hasattr(bytes, name):
+            return PyCallable(pure_str_method(obj, name), f'bytes.{name}')
+        raise AbsRaise(ExcVal('AttributeError', (f"'bytes' object has no attribute '{name}'",)), node)
     if isinstance(obj, FB):
         raise AbsRaise(ExcVal('AttributeError', (f"bool has no attribute '{name}'",)), node)
     raise AnalysisError(f'attribute {name} of {type(obj).__name__} not modelled', node, where=_where(interp, node))
@@ -291,6 +313,16 @@ class DtAccessor:
     def abs_getattr(self, interp, name, node):
         if name == 'tz_localize':
             return PyCallable(lambda it, a, k, n: self.v.copy(tz=(a[0] if a else None)), 'dt.tz_localize')
+        if name == 'tz_convert':
+            def conv(it, a, k, n):
+                # only UTC-aware data is in the scenarios: converting UTC stamps to UTC / to naive keeps the instants
+                tz = a[0] if a else k.get('tz')
+                if self.v.tz is None:
+                    raise AbsRaise(ExcVal('TypeError', ('Cannot convert tz-naive timestamps, use tz_localize to localize',)), n)
+                if self.v.tz != 'UTC' or tz not in (None, 'UTC', 'utc'):
+                    raise AnalysisError('tz_convert between zones other than UTC is not modelled', n)
+                return self.v.copy(tz=None if tz is None else 'UTC')
+            return PyCallable(conv, 'dt.tz_convert')
         if name == 'tz':
             return self.v.tz
         if name in PERIOD_ATTRS:
@@ -966,6 +998,15 @@ def register(M):
     def _tzl(interp, v, args, kw, node):
         return v.copy(tz=(args[0] if args else None))
 
+    @meth(Vec, 'tz_convert')
+    def _tzc(interp, v, args, kw, node):
+        tz = args[0] if args else kw.get('tz')
+        if v.tz is None:
+            raise AbsRaise(ExcVal('TypeError', ('Cannot convert tz-naive timestamps, use tz_localize to localize',)), node)
+        if v.tz != 'UTC' or tz not in (None, 'UTC', 'utc'):
+            raise AnalysisError('tz_convert between zones other than UTC is not modelled', node)
+        return v.copy(tz=None if tz is None else 'UTC')
+
     # ---------------------------------------------------------------------------------------
     # elementwise numpy functions
     def as_vec(interp, v, node):
@@ -1167,6 +1208,16 @@ def register(M):
             raise AnalysisError('concatenate of non-arrays', node)
         els = [e for v in vs for e in v.els()]
         return vs[0].like(els)
+
+    @ext('numpy.ma.concatenate', 'numpy.ma.hstack')
+    def _ma_concat(interp, args, kw, node):
+        parts = args[0] if len(args) == 1 else args
+        parts = list(interp.iterate(parts, node)) if not isinstance(parts, (list, tuple)) else list(parts)
+        vs = [as_vec(interp, p, node) for p in parts]
+        if any(v is None for v in vs):
+            raise AnalysisError('ma.concatenate of non-arrays', node)
+        return Vec.fresh([e if v.kind == 'ma' else El(e.d, False) for v in vs for e in v.els()], kind='ma', dtype=vs[0].dtype if vs else 'f8',
+                         unit=vs[0].unit if vs else None)
 
     @ext('numpy.where')
     def _where_fn(interp, args, kw, node):
